@@ -31,9 +31,9 @@ std::string h_gen(Src& s) {
     int elem = (int)s.choose(6); int nt = s.range(2, 4);
     static const int pf[] = { 0, 1, 3, 7, 9, 31, 33, 65, 70 }; int prefill = pf[s.choose(9)];
     if (bounded && prefill > cap) prefill = s.range(0, cap);
-    int thr = s.coin(5) ? s.range(1, 6) : 0;
-    std::string o = "queue bounded=" + std::to_string(bounded) + " cap=" + std::to_string(cap) + " elem=" + std::to_string(elem) + " prefill=" + std::to_string(prefill) + " threads=" + std::to_string(nt) + " throw=" + std::to_string(thr) + "\n";
-    bool abort_used = false;
+    int thr = s.coin(5) ? s.range(1, 6) : 0; int athr = (!thr && !drv_flag("--no-alloc-fault") && s.coin(7)) ? s.range(1, 4) : 0;
+    std::string o = "queue bounded=" + std::to_string(bounded) + " cap=" + std::to_string(cap) + " elem=" + std::to_string(elem) + " prefill=" + std::to_string(prefill) + " threads=" + std::to_string(nt) + " throw=" + std::to_string(thr) + (athr ? " athrow=" + std::to_string(athr) : "") + "\n";
+    bool abort_used = athr != 0;   // allocation failure is not combined with abort(): abort_push allocates inside a clean-up guard (destructor) -> std::terminate (DESIGN 11.17)
     for (int t = 0; t < nt; t++) {
         o += "t " + std::to_string(t); int nops = s.range(1, 7);
         for (int k = 0; k < nops; k++) {
@@ -57,6 +57,17 @@ std::string h_gen(Src& s) {
 // ------------------------------------------------------------------ element type
 static long g_ctor_count = 0, g_throw_at = 0; static bool g_armed = false; static long g_live = 0;
 struct Boom { int v; };
+static long g_alloc_count = 0, g_athrow_at = 0; static int g_alloc_fired = 0;
+template <class T> struct QAlloc {     // page allocator that fails at the generated index (only while armed)
+    using value_type = T; using is_always_equal = std::true_type;
+    QAlloc() = default; template <class U> QAlloc(const QAlloc<U>&) {}
+    T* allocate(size_t n) { if (g_armed && g_athrow_at && ++g_alloc_count == g_athrow_at) { g_alloc_fired++; throw std::bad_alloc(); } void* p = nullptr; if (posix_memalign(&p, alignof(T) > 64 ? alignof(T) : 64, n * sizeof(T))) throw std::bad_alloc(); return (T*)p; }
+    void deallocate(T* p, size_t) { std::free(p); }
+    template <class U> bool operator==(const QAlloc<U>&) const { return true; }
+    template <class U> bool operator!=(const QAlloc<U>&) const { return false; }
+};
+template <class Q> struct is_bounded_q : std::false_type {};
+template <class E, class A> struct is_bounded_q<tbb::concurrent_bounded_queue<E, A>> : std::true_type {};
 template <int N> struct Elem {
     int v; unsigned char pad[N - 4];
     void fill() { for (int i = 0; i < N - 4; i++) pad[i] = (unsigned char)(v * 31 + i); }
@@ -153,11 +164,11 @@ template <class Q, class E> struct Runner {
             try {
                 if (c == 'P') { g_armed = false; E e(v); g_armed = true; q.push(e); ok = true; }
                 else if (c == 'E') { q.emplace(v); ok = true; }
-                else if (c == 'Y') { if constexpr (std::is_same<Q, tbb::concurrent_bounded_queue<E>>::value) { g_armed = false; E e(v); g_armed = true; ok = q.try_push(e); } }
-                else if (c == 'O') { if constexpr (std::is_same<Q, tbb::concurrent_bounded_queue<E>>::value) { E e; q.pop(e); ok = true; ret = e.v; intact = e.intact(); } }
+                else if (c == 'Y') { if constexpr (is_bounded_q<Q>::value) { g_armed = false; E e(v); g_armed = true; ok = q.try_push(e); } }
+                else if (c == 'O') { if constexpr (is_bounded_q<Q>::value) { E e; q.pop(e); ok = true; ret = e.v; intact = e.intact(); } }
                 else if (c == 'Q') { E e; ok = q.try_pop(e); if (ok) { ret = e.v; intact = e.intact(); } }
                 else if (c == 'A') {
-                    if constexpr (std::is_same<Q, tbb::concurrent_bounded_queue<E>>::value) {
+                    if constexpr (is_bounded_q<Q>::value) {
                         if (!g_witness) for (int i = 0; i < g_nt; i++) if (i != t && inflight_kind[i] == K_POP) { in_window[i] = 1; abort_window++; }
                         for (int i = 0; i < g_nt; i++) if (i != t && (inflight_kind[i] == K_POP || inflight_kind[i] == K_PUSH) && vs_thread_state(thr_sched_id[i]) == 1) must_return.push_back(inflight_idx[i]);
                         q.abort(); ok = true;
@@ -165,6 +176,7 @@ template <class Q, class E> struct Runner {
                 }
             } catch (Boom&) { threw = true; }
             catch (tbb::user_abort&) { aborted = true; }
+            catch (std::bad_alloc&) { threw = true; if (!g_alloc_fired) vs_violation("SPURIOUS-EXCEPTION", "%s threw bad_alloc although no allocation failure was injected", KN[o.kind]); }
             if (in_window[t]) { in_window[t] = 0; abort_window--; }
             LinOp& r = H[idx]; r.resp = vs_now(); r.pending = false; r.ok = ok; r.ret = ret; r.b = threw ? 1 : 0;
             inflight_kind[t] = -1; n_inflight--;
@@ -179,7 +191,7 @@ template <class Q, class E> struct Runner {
     static void on_deadlock(const char* d) { judge(true, d); }
     static void run(Case& c) {
         Q* q = new Q; g_q = q;
-        if constexpr (std::is_same<Q, tbb::concurrent_bounded_queue<E>>::value) q->set_capacity(g_cap);
+        if constexpr (is_bounded_q<Q>::value) q->set_capacity(g_cap);
         long prefill = kvl(c.lines[0], "prefill", 0);
         for (long i = 0; i < prefill; i++) { E e(10000 + (int)i); q->push(e); g_initial.push_back(10000 + (int)i); }
         g_armed = true;
@@ -246,6 +258,11 @@ template <class Q, class E> void Runner<Q, E>::judge(bool deadlocked, const char
 }
 
 template <int N> static void run_elem(Case& c) {
+    if (g_athrow_at) {    // page allocation failure: separate instantiation with the failing allocator
+        if (g_bounded) Runner<tbb::concurrent_bounded_queue<Elem<N>, QAlloc<Elem<N>>>, Elem<N>>::run(c);
+        else Runner<tbb::concurrent_queue<Elem<N>, QAlloc<Elem<N>>>, Elem<N>>::run(c);
+        return;
+    }
     if (g_bounded) Runner<tbb::concurrent_bounded_queue<Elem<N>>, Elem<N>>::run(c);
     else Runner<tbb::concurrent_queue<Elem<N>>, Elem<N>>::run(c);
 }
@@ -253,7 +270,7 @@ template <int N> static void run_elem(Case& c) {
 void h_run(Case& c) {
     for (auto& l : c.lines) {
         auto w = split_ws(l);
-        if (w[0] == "queue") { g_bounded = kvl(l, "bounded", 0) != 0; g_cap = kvl(l, "cap", 1); g_elem = (int)kvl(l, "elem", 0); g_nt = (int)kvl(l, "threads", 2); g_throw_at = kvl(l, "throw", 0); g_witness_mode = (int)kvl(l, "witness", 0); g_witness = g_witness_mode != 0; }
+        if (w[0] == "queue") { g_bounded = kvl(l, "bounded", 0) != 0; g_cap = kvl(l, "cap", 1); g_elem = (int)kvl(l, "elem", 0); g_nt = (int)kvl(l, "threads", 2); g_throw_at = kvl(l, "throw", 0); g_athrow_at = kvl(l, "athrow", 0); g_witness_mode = (int)kvl(l, "witness", 0); g_witness = g_witness_mode != 0; }
         else if (w[0] == "t") { int t = atoi(w[1].c_str()); if ((int)g_ops.size() <= t) g_ops.resize(t + 1); g_ops[t].assign(w.begin() + 2, w.end()); }
     }
     g_ops.resize(g_nt); inflight_kind.assign(g_nt, -1); inflight_idx.assign(g_nt, 0); in_window.assign(g_nt, 0);
